@@ -10,9 +10,10 @@ import Driver.PrettyOps
 import Driver.CramOps
 import Driver.EscOps
 import Driver.RulesOps
+import Driver.GrammarOps
 /-! Line-protocol driver: one operation per input line, one canonical line out. -/
 namespace Driver
-open Driver.CramOps Driver.MarkdownOps Driver.EscOps Driver.RulesOps Driver.YamlOps Driver.TplOps Driver.PrettyOps
+open Driver.CramOps Driver.MarkdownOps Driver.EscOps Driver.RulesOps Driver.YamlOps Driver.TplOps Driver.PrettyOps Driver.GrammarOps
 
 def step (line : String) : String :=
   match line.trimAscii.toString.splitOn " " with
@@ -55,6 +56,8 @@ def step (line : String) : String :=
   | "rx" :: args => opRx args
   | "rxl" :: args => opRxLine args
   | "oracle-only" :: args => opOracleOnly args
+  | "gram" :: args => opGram args
+  | "gwhite" :: args => opGWhite args
   | _ => "bad-op"
 
 partial def loop (h : IO.FS.Stream) (out : IO.FS.Stream) : IO Unit := do
